@@ -157,6 +157,9 @@ fn body_pool() -> Vec<(&'static str, Argv)> {
         ("GET-lower", av(&["get", "s"])),
         ("SET-plain-fastpath-shape", av(&["SET", "s", "fast"])),
         ("UNWATCH-inside", av(&["UNWATCH"])),
+        // scripts as queued commands: their redis.call runs when EXEC runs them, with effect and result
+        ("EVAL-set-get", av(&["EVAL", "redis.call('SET', KEYS[1], ARGV[1]); return redis.call('GET', KEYS[1])", "1", "s", "from-script"])),
+        ("EVAL-incr", av(&["EVAL", "return redis.call('INCR', KEYS[1])", "1", "n"])),
         ("PING-inside", av(&["PING"])),
         ("STUB-unknown-sub", av(&["CLIENT", "NOSUCHSUB"])),
         ("STUB-client-list", av(&["CLIENT", "LIST"])),
